@@ -121,7 +121,7 @@ def replay_tree(j, h, sigma):
 
 # ---- Regime V: the laws themselves, evaluated by the implementation on both sides ---------------
 
-ANGLES = [0.0, 1e-12, 1e-9, 1e-6, 0.3, 1.0, math.pi / 2, 2.0, math.pi - 1e-6, math.pi - 1e-9,
+ANGLES = [0.0, 1e-12, 1e-9, 1e-6, 1e-5, 1e-4, 1e-3, 0.3, 1.0, math.pi / 2, 2.0, math.pi - 1e-6, math.pi - 1e-9,
           math.pi - 1e-12, math.pi]
 
 
@@ -192,6 +192,11 @@ def law_instances(j, rng, n, dim):
                     "inverse-left": (lambda: X.inv() * X, lambda: I),
                     "inv-of-product": (lambda: (X * Y).inv(), lambda: Y.inv() * X.inv()),
                 }
+                # one operand holding two values: element i of the product is the product with element i (1 x N, N x 1)
+                YZ = type(X)([Y, Z])
+                laws["one-times-many[0]"] = (lambda: (X * YZ)[0], lambda: X * Y)
+                laws["one-times-many[1]"] = (lambda: (X * YZ)[1], lambda: X * Z)
+                laws["many-times-one[1]"] = (lambda: (YZ * X)[1], lambda: Z * X)
                 if not twist:
                     laws["division"] = (lambda: X / Y, lambda: X * Y.inv())
                     laws["power"] = (lambda: X ** nexp, lambda: npow(X, nexp))
@@ -219,6 +224,31 @@ def law_instances(j, rng, n, dim):
                     j.fail("%s|%s.%s|%s|raised-%s" % (PID, cname, name, feat, type(ex).__name__),
                            {"kind": "law", "cls": cname, "law": name, "A": A.tolist(), "B": B.tolist(),
                             "C": C.tolist(), "n": nexp}, cid)
+        # twists as the motions they generate, against the matrices they were built from (not against another twist
+        # that went through the same logarithm); routes through a half turn are left to C03
+        if max(aa, ab) < math.pi - 1e-3:
+            for cname in (["Twist3"] if dim == 3 else ["Twist2"]):
+                scale = max(1.0, ma, mb)
+                feat = "angles(%s);t=%s" % (",".join(sorted({band(x) for x in (aa, ab)})), gl.mag_band(max(ma, mb)))
+                try:
+                    X, Y = from_T(cname, A), from_T(cname, B)
+                    motions = {"generates": (lambda: X, A, 1.0), "product-motion": (lambda: X * Y, A @ B, 2.0),
+                               "inverse-motion": (lambda: X.inv(), np.linalg.inv(A), 1.0)}
+                except Exception as ex:  # noqa: BLE001
+                    j.fail("%s|%s.construct|%s|raised-%s" % (PID, cname, feat, type(ex).__name__), {"kind": "law", "cls": cname, "A": A.tolist()})
+                    continue
+                for name, (thunk, want, k) in motions.items():
+                    cid = (cname, "law", name, feat)
+                    try:
+                        d = gamma.distance(cname, val(cname, thunk()), want)
+                        if not (d <= gl.TOL[cname] * scale * k):
+                            j.fail("%s|%s.%s|%s|law-violated" % (PID, cname, name, feat),
+                                   {"kind": "law", "cls": cname, "law": name, "distance": d, "A": A.tolist(), "B": B.tolist()}, cid)
+                        else:
+                            j.ok(cid)
+                    except Exception as ex:  # noqa: BLE001
+                        j.fail("%s|%s.%s|%s|raised-%s" % (PID, cname, name, feat, type(ex).__name__),
+                               {"kind": "law", "cls": cname, "law": name, "A": A.tolist(), "B": B.tolist()}, cid)
         # structured inverse equals the true matrix inverse
         for cname in (["SE3"] if dim == 3 else ["SE2"]):
             X = from_T(cname, A)
